@@ -26,8 +26,10 @@
 (*                                                                           *)
 (* Deviations (constant set Dev):                                            *)
 (*   "backup_applies_in_arrival_order"  the code as it is: a backup stores   *)
-(*        whatever arrives last.  With Dev = {} the backup keeps the value   *)
-(*        of the highest sequence number per key (what convergence needs).   *)
+(*        whatever arrives last.  With Dev = {} a Replicate that arrives     *)
+(*        after a later write to its key still spends the store latency (so  *)
+(*        its ack never precedes the newer value) but stores nothing: the    *)
+(*        backup keeps the highest sequence number per key.                  *)
 (*   "ack_before_apply"   ack future resolved when the Replicate arrives     *)
 (*   "sync_waits_for_one" SYNC resumes on the first ack future               *)
 (*        (the last two are not in the code; sensitivity of the ack clause). *)
@@ -78,7 +80,8 @@ BPutDone(s, b) ==
         new == IF "backup_applies_in_arrival_order" \in Dev THEN w ELSE Max2(w, s.bst[b][k])
         gotw == s.got[w] \cup {b}
     IN [s EXCEPT !.bq[b] = Tail(@), !.bst[b][k] = new, !.last[b] = w,
-                 !.appl[b] = @ \cup {w}, !.got[w] = gotw,
+                 !.appl[b] = IF new = w THEN @ \cup {w} ELSE @,     \* a superseded write is not stored
+                 !.got[w] = gotw,
                  !.acked = IF AckNow(s, w, gotw) THEN @ \cup {w} ELSE @]
 
 \* ---- contract (C17, primary-backup clauses), over observable state --------
